@@ -188,8 +188,8 @@ theorem wfFv_vol (k : Skel) (hk : k.Ok) (files : List FileI) (hlt : k.len < 2 ^ 
     omega
   simp only [Skel.vol, Skel.pre, wfFv, e, Bool.and_eq_true, decide_eq_true_eq, beq_iff_eq, bne_iff_ne, Bool.or_eq_true,
     List.isEmpty_iff, Bool.not_eq_true', List.isEmpty_eq_false_iff, hbig, Bool.not_false, true_or, and_true]
-  refine ⟨⟨⟨⟨⟨⟨⟨⟨⟨⟨⟨⟨⟨hk.hzv, hk.hattrs⟩, hk.hpol⟩, hk.hrev⟩, hk.hrsv⟩, hk.hblocks⟩, hk.hhdr⟩, hb⟩, ?_⟩,
-    hk.hlen8⟩, hlt⟩, hk.hlen64⟩, hfiles⟩, htail⟩
+  refine ⟨⟨⟨⟨⟨⟨⟨⟨⟨⟨⟨⟨hk.hzv, hk.hattrs⟩, hk.hpol⟩, hk.hrev⟩, hk.hrsv⟩, hk.hblocks⟩, hk.hhdr⟩, hb⟩, ?_⟩,
+    hk.hlen8⟩, hlt⟩, hk.hlen64⟩, hfiles⟩
   cases hx : k.ext with
   | none => trivial
   | some ex =>
